@@ -11,7 +11,14 @@ Definition case := list ev.
 
 (* events *)
 Definition P me specs binding rs dest conv recip (obs : bool) : ev :=
-  (OParse {| me := me; specs := specs; binding := binding; rs := rs; dest := dest; conv := conv; recip := recip |}, RId obs).
+  (OParse (of_input {| me := me; specs := specs; binding := binding; rs := rs; dest := dest; conv := conv; recip := recip |}), RId obs).
+(* the whole message: conds = None (no <Conditions>) or Some (K nb nooa other rs); confs = the
+   SubjectConfirmation elements in document order, built with C *)
+Definition K (nb nooa other : bool) rs : conditions := {| k_nb := nb; k_nooa := nooa; k_other := other; k_rs := rs |}.
+Definition C (m : method) (d : option (option string * bool)) : confirmation :=
+  {| c_method := m; c_data := match d with Some (r, cf) => Some {| d_recipient := r; d_confirmed := cf |} | None => None end |}.
+Definition M me specs binding conds dest conv confs (obs : bool) : ev :=
+  (OParse {| m_me := me; m_specs := specs; m_binding := binding; m_conds := conds; m_dest := dest; m_conv := conv; m_confs := confs |}, RId obs).
 Definition U specs binding (obs : option (list string)) : ev := (OUrls specs binding, RUrls obs).
 Definition E specs binding (obs : list string) : ev := (OEndp specs binding, REndp obs).
 Definition A specs binding (obs : option string) : ev := (OAcs specs binding, RAcs obs).
@@ -36,7 +43,7 @@ Definition holds (c : case) : bool := spec_trace_b (map fst c) (map snd c).
    while another one is) — every failing call of the sequence is of that kind *)
 Definition cls1 (e : ev) : bool :=
   match e with
-  | (OParse x, RId b) => spec_b x b || (b && identity_v0 x && negb (identity x))
+  | (OParse x, RId b) => spec_m_b x b || (b && accept_v0 x && negb (accept x))
   | (o, r) => spec_ev_b o r
   end.
 Definition cls (c : case) : nat := if forallb cls1 c then 1 else 0.
